@@ -161,11 +161,11 @@ Proof.
       destruct (fits_req pl (e_req e)); cbn [andb].
       * destruct (IH (if is_groups pl && is_relevant_for_coupling (e_req e) then coupling ++ [e] else coupling)) as (cp & A & B); auto.
         { split; auto. }
-        exists cp. split; auto. intros x Hx. destruct (B x Hx) as [Hy|Hy]; auto.
-        destruct (is_groups pl && is_relevant_for_coupling (e_req e)); auto.
-        apply in_app_or in Hy. destruct Hy as [Hy|[Hy|[]]]; auto; try (subst; right; left; auto).
-      * destruct (is_groups pl && is_relevant_for_coupling (e_req e)); eexists; (split; [reflexivity|]); intros x Hx; auto.
-        apply in_app_or in Hx. destruct Hx as [Hx|[Hx|[]]]; auto; try (subst; right; left; auto).
+        exists cp. split; [exact A|]. intros x Hx. destruct (B x Hx) as [Hy|Hy]; [|right; right; exact Hy].
+        destruct (is_groups pl && is_relevant_for_coupling (e_req e)); [|left; exact Hy].
+        apply in_app_or in Hy. destruct Hy as [Hy|[Hy|[]]]; [left; exact Hy | subst; right; left; reflexivity].
+      * destruct (is_groups pl && is_relevant_for_coupling (e_req e)); eexists; (split; [reflexivity|]); intros x Hx; [|left; exact Hx].
+        apply in_app_or in Hx. destruct Hx as [Hx|[Hx|[]]]; [left; exact Hx | subst; right; left; reflexivity].
 Qed.
 
 Definition unforced (rq : request) : bool := forallb (fun e => negb (is_forced (e_req e))) rq.
